@@ -172,6 +172,7 @@ class Interp:
         self.harness_exc: BaseException | None = None
         self.running: int | None = None
         self.overlap: list[tuple[int, int]] = []
+        self.shared_ctf: Any = None
 
     def disc(self, bucket: str, msg: str) -> None:
         self.out.add("teardown", "teardown:" + bucket, msg)
@@ -313,9 +314,39 @@ class Interp:
     async def register_ctxtd(self, spec: dict) -> None:
         from asphalt.core import context_teardown
 
+        interp = self
+        if spec["id"] % 3 != 0:
+            # one decorated function / method, called once per registration (with the spec as its
+            # argument): every call must get its own teardown part
+            if self.shared_ctf is None:
+                async def shared_gen(sp: dict):  # type: ignore[no-untyped-def]
+                    b_, a_, e_ = interp.behaviour(sp)
+                    interp.trace.append(["ctxtd-started", sp["id"]])
+                    exc = yield
+                    try:
+                        b_(exc, True)
+                        await checkpoints(sp.get("cps", 0))
+                        await vsleep(sp.get("sleep", 0))
+                        a_()
+                    except BaseException as e:
+                        e_(e)
+                        raise
+                    else:
+                        e_(None)
+
+                class SharedHolder:
+                    start = context_teardown(shared_gen)
+
+                self.shared_ctf = (context_teardown(shared_gen), SharedHolder)
+            if spec["route"] == "ctxtd_func":
+                await self.shared_ctf[0](spec)
+            else:
+                await self.shared_ctf[1].start(spec)  # (plain function on the class: spec is its only argument)
+            self.reg_order.append(spec)
+            self.trace.append(["registered", spec["id"], spec["route"] + "(shared)"])
+            return
         begin, after, end = self.behaviour(spec)
         cps, sl = spec.get("cps", 0), spec.get("sleep", 0)
-        interp = self
 
         async def gen_body(*_self: Any):
             interp.trace.append(["ctxtd-started", spec["id"]])
